@@ -329,7 +329,7 @@ def write_replay(module, tier, viol, decisions, base_seed):
                            (viol['clause'], r['digest'], r2['digest']))
     os.makedirs(REPLAYS(), exist_ok=True)
     tag = hashlib.sha1((v[0] + '|' + v[1]).encode()).hexdigest()[:8]
-    path = os.path.join(VERIF, 'replays', '%s-%d-%s.json' % (module.PROPERTY, base_seed, tag))
+    path = os.path.join(REPLAYS(), '%s-%d-%s.json' % (module.PROPERTY, base_seed, tag))
     doc = {
         'property': module.PROPERTY, 'clause': v[0], 'key': v[1], 'violation': v[2],
         'seed': viol.get('seed'), 'run_index': viol.get('run_index'), 'tier': tier,
@@ -399,7 +399,7 @@ def try_history(prop, tier, base_seed, viol):
         return None
     os.makedirs(REPLAYS(), exist_ok=True)
     tag = hashlib.sha1((target[0] + '|' + target[1]).encode()).hexdigest()[:8]
-    path = os.path.join(VERIF, 'replays', '%s-%d-%s.json' % (prop, base_seed, tag))
+    path = os.path.join(REPLAYS(), '%s-%d-%s.json' % (prop, base_seed, tag))
     doc = {'property': prop, 'kind': 'history', 'clause': target[0], 'key': target[1],
            'violation': res['violation'][2], 'base_seed': base_seed, 'tier': tier,
            'run_indices': best, 'digest': res['digest'], 'trace': res.get('trace', [])[-120:],
